@@ -5,12 +5,21 @@
      Chain /, /a, /a/a, /a/a/a, /b                           (5 paths)
      Fork  /, /a, /a/a, /a/b, /b, /b/a                       (6 paths)
    Locations: L1 local (deployment __LOCAL__), L2 remote, L3 remote wrapping L2 with the mount
-   point /a -> /b (so registering /a/x on L3 also registers /b/x on L2 and relates the two).   *)
+   point /a -> /b (so registering /a/x on L3 also registers /b/x on L2 and relates the two).
+   Wrap2: L2 in turn wraps L1 with the mount point /b/a -> /b/b: a stack of depth two (container -> vm ->
+   host), registering /a/a/x on L3 also registers /b/a/x on L2 and /b/b/x on L1, three different paths,
+   and the relation closure demands that each of the three paths reports all three copies.
+   Family: a scenario family = all continuations of a fixed prefix of operations (performed through the
+   same actions, counted in MaxDepth); "three" = one file registered at three different paths on three
+   locations, so that fan-outs and chains of relations (at least two relations sharing an end) are reached
+   two operations later.                                                                         *)
 EXTENDS DataManager, Json
 
 CONSTANTS Universe,       \* "T2" / "T3" / "Chain" / "Fork"
           NLocs,          \* 1..3
           Wrap,           \* TRUE: L3 wraps L2 (needs NLocs = 3)
+          Wrap2,          \* TRUE: L2 wraps L1 (with Wrap: L3 -> L2 -> L1, a location wrapped twice)
+          Family,         \* "none" / "three": prefix of operations every behaviour starts with
           MaxDepth        \* operation sequences of length <= MaxDepth
 
 A == "a"
@@ -22,9 +31,19 @@ FlatU == << <<>>, <<A>>, <<B>> >>
 ForkU == << <<>>, <<A>>, <<B>>, <<A,A>>, <<A,B>>, <<B,A>> >>
 MCPathSeq == CASE Universe = "T2" -> T2 [] Universe = "T3" -> T3 [] Universe = "Chain" -> ChainU [] Universe = "Fork" -> ForkU [] Universe = "Flat" -> FlatU
 MCLocSeq == SubSeq(<<"L1", "L2", "L3">>, 1, NLocs)
-MCWrapsOf(l) == IF Wrap /\ l = "L3" THEN "L2" ELSE "none"
-MCMountFrom(l) == <<A>>
-MCMountTo(l) == <<B>>
+MCWrapsOf(l) == IF Wrap /\ l = "L3" THEN "L2" ELSE IF Wrap2 /\ l = "L2" THEN "L1" ELSE "none"
+MCMountFrom(l) == IF l = "L2" THEN <<B, A>> ELSE <<A>>
+MCMountTo(l) == IF l = "L2" THEN <<B, B>> ELSE <<B>>
+
+Prefix == CASE Family = "none" -> <<>>
+            [] Family = "three" -> << <<"reg", "L1", <<A, A>>, "PRIMARY">>, <<"reg", "L2", <<A, B>>, "PRIMARY">>,
+                                      <<"reg", "L3", <<B, A>>, "PRIMARY">> >>
+Do(op) ==
+  CASE op[1] = "reg" -> RegisterPath(op[2], op[3], op[4])
+    [] op[1] = "rel" -> RegisterRelation(op[2], op[3])
+    [] op[1] = "inv" -> InvalidateLocation(op[2], op[3])
+\* the prefix first, then every operation
+FNext == IF Len(hist) < Len(Prefix) THEN Do(Prefix[Len(hist) + 1]) ELSE Next
 
 Bound == Len(hist) < MaxDepth
 \* states that already break Match are not expanded (everything after them is a consequence)
@@ -64,5 +83,5 @@ AvailRow == CellRow(LAMBDA p, l : IF SelectSeq(locs'[p][l], LAMBDA i : dl'[i].ty
 CauseRow == CellRow(LAMBDA p, l : CellCause(p, l)')
 SrcRow == [i \in 1..Len(PathSeq) |-> IF SourceNone(PathSeq[i])' THEN 0 ELSE 1]
 Emit == PrintT(ToJson([h |-> hist', e |-> ExpRow, a |-> AvailRow, s |-> SrcRow, c |-> CauseRow, x |-> err', xc |-> ErrCause', n |-> Len(dl')]))
-GenNext == Next /\ Emit
+GenNext == FNext /\ Emit
 =============================================================================
